@@ -78,6 +78,8 @@ def build(cfg, val):
             ch = Node(nd.idealPos, 1)
             ch.parent_unused = True
             nd.child = ch  # isStub() only looks at .child
+        # arbitrary STALE position on the item: removeOverlap must not depend on where an item happened to be before
+        nd.currentPos = val("stale%d" % i, -POS, POS)
         nd.vid = i
         nodes.append(nd)
     opts = {"nodeSpacing": s, "minPos": None, "maxPos": None}
